@@ -118,6 +118,10 @@ def run_slice(pid, cfg, n_cases, seed, workdir, rep, stats, profiles=None, attri
             rep.violation(case_payload(pid, case, dr, v, {"machinery_error": "monitor fails on a model's own trace"}),
                           "no-failing-input-found")
             continue
+        if v.get("net_sig") == 0:
+            stats["generated_net_equal"] += 1
+        elif v.get("net_sig") == 1:
+            stats["generated_net_DIFFERS"] += 1
         ref_bad = v["model"] == 0 and v["disagree"] is not None
         net_bad = w["model"] == 0 and w["disagree"] is not None
         mon_bad = not v["mon_impl"]
@@ -136,6 +140,12 @@ def run_slice(pid, cfg, n_cases, seed, workdir, rep, stats, profiles=None, attri
                 rep.violation(case_payload(pid, case, dr, v, {"failed": {"net_model": True},
                                                               "broken": "correspondence NetModel (PFDL.NetRun.run_net) vs implementation"}),
                               "no-failing-input-found")
+        elif v.get("net_sig") == 1 and cfg.get("net_structure", True):
+            rep.violation(case_payload(pid, case, dr, v, {"failed": {"generated_net": True},
+                                                          "broken": "correspondence of the generated net (PFDL.NetRun.net_sig_of) "
+                                                                    "with the implementation's net: places, arcs or callback table differ",
+                                                          "impl_net_signature": dr.get("net_sig")}),
+                          "no-failing-input-found")
         else:
             stats["agree"] += 1
             stats.setdefault("_distinct", set()).add(
